@@ -1,0 +1,14 @@
+//go:build verif
+
+package sdf
+
+import "math/rand"
+
+// VerifC17SetRand installs r as the library's private pseudo-random source (the
+// bezier sampler perturbs its flatness test with it) and returns the previous
+// one, so that a caller can supply and record the sequence of draws.
+func VerifC17SetRand(r *rand.Rand) *rand.Rand {
+	old := sdfRand
+	sdfRand = r
+	return old
+}
